@@ -215,7 +215,26 @@ def expectLine (c : Case) : String :=
   let anyFail := c.ents.any c.fails
   s!"expect res={if anyFail then "err" else "ok"} cmds={(expected cfg c.ents).length}"
 
+/-- `mfile rp=… P=… fail=<keyhex|-> dseed=… F=<entries>|<entries>|…`: restore mode over several input files.
+    A failing RESTORE in ANY file must end the run as a failure (`Properties.C07.main_reports_any_failure`: whatever
+    routine picked which file in which order); otherwise every key of every file is written once, into its own database. -/
+def mfileLine (cl : String) : String :=
+  let toks := cl.splitOn " "
+  let look (k : String) : String :=
+    match toks.find? (·.startsWith (k ++ "=")) with
+    | some t => (t.drop (k.length + 1)).toString
+    | none => ""
+  if look "fail" != "-" then "abort"
+  else
+    let ents := ((look "F").splitOn "|").flatMap fun f => (f.splitOn ";").filter (· ≠ "-")
+    let ws := ents.filterMap fun e =>
+      match e.splitOn ":" with
+      | db :: key :: _ => some s!"{db}:{key}"
+      | _ => none
+    "res=ok W=" ++ ",".intercalate (ws.mergeSort (fun a b => a ≤ b))
+
 def handle (line : String) : String :=
+  if line.startsWith "mfile " then mfileLine line else
   match line.splitOn " @@ " with
   | [cl] =>
     match parseCase cl with
